@@ -381,9 +381,19 @@ func mergeRoots(
 				}
 			}
 
+			// Only a version whose objects are gone (vacuumed) may be
+			// skipped; any other failure must fail the open, otherwise the
+			// caller gets a table that silently lacks a committed version.
+			skippable := func(err error) bool {
+				var ae awserr.Error
+				return skipUnreadable && errors.As(err, &ae) && ae.Code() == s3.ErrCodeNoSuchKey
+			}
 			newTree, err := tree.Clone(ctx)
 			if err != nil {
-				if cfg.LogFunc != nil && skipUnreadable {
+				if !skippable(err) {
+					return nil, nil, 0, fmt.Errorf("clone for merge of %v: %w", key, err)
+				}
+				if cfg.LogFunc != nil {
 					cfg.LogFunc(fmt.Sprintf("skipping merge un-cloneable tree %v: %v", key, err))
 				}
 				continue
@@ -393,7 +403,10 @@ func mergeRoots(
 				return nil, nil, 0, err
 			}
 			if err != nil {
-				if cfg.LogFunc != nil && skipUnreadable {
+				if !skippable(err) {
+					return nil, nil, 0, fmt.Errorf("merge %v: %w", key, err)
+				}
+				if cfg.LogFunc != nil {
 					cfg.LogFunc(fmt.Sprintf("skipping merge un-cloneable tree %v: %v", key, err))
 				}
 				continue
